@@ -37,6 +37,7 @@ def _case(draw, unit):
             'N': draw(st.sampled_from([1, 1, 2, 3])), 'C': draw(st.sampled_from([1, 2, 3])),
             'dtype': draw(st.sampled_from(['f64', 'f64', 'f64', 'f32'])),
             'filt_form': draw(st.sampled_from(['names', 'names', 'names', 'tuples'])),
+            'reused': draw(st.integers(0, 2)) == 0,
             'rx': draw(core.recipe_strategy()), 'k': draw(st.integers(0, 10**6))}
 
 
@@ -65,7 +66,15 @@ def run_case(case):
     common_labels(r, case)
     with dwtu.default_dtype(tdt):
         fb, fq = dtu.filt_args(b, q, case.get('filt_form', 'names'))
-        fwd = DTCWTForward(biort=fb, qshift=fq, J=J)
+        twin = {'qshift_06': 'qshift_a', 'qshift_a': 'qshift_06'}.get(q)
+        if case.get('reused') and twin:
+            # the module had a previous life with the other 10-tap q-shift set (load_state_dict in between)
+            r.label('reused_module')
+            fwd = DTCWTForward(biort=b, qshift=twin, J=J)
+            fwd(torch.ones(1, case['C'], 8, 8, dtype=tdt))
+            fwd.load_state_dict(DTCWTForward(biort=fb, qshift=fq, J=J).state_dict())
+        else:
+            fwd = DTCWTForward(biort=fb, qshift=fq, J=J)
     g = 1.0
     if H * W <= 192:
         r.label('full_operator')
